@@ -128,11 +128,13 @@ def _split_top(text):
     return parts
 
 
-_HX = re.compile(r"call (\w+)_proxy%halo_exchange(_start|_finish)?"
+_PROXY = r"(\w+)_proxy(\(\d+\))?"
+_HX = re.compile(r"call " + _PROXY + r"%halo_exchange(_start|_finish)?"
                  r"\(depth=(.*)\)$")
-_IF_DIRTY = re.compile(r"if \((\w+)_proxy%is_dirty\(depth=(.*)\)\) then$")
-_DIRTY = re.compile(r"call (\w+)_proxy%set_dirty\(\)$")
-_CLEAN = re.compile(r"call (\w+)_proxy%set_clean\((.*)\)$")
+_IF_DIRTY = re.compile(r"if \(" + _PROXY +
+                       r"%is_dirty\(depth=(.*)\)\) then$")
+_DIRTY = re.compile(r"call " + _PROXY + r"%set_dirty\(\)$")
+_CLEAN = re.compile(r"call " + _PROXY + r"%set_clean\((.*)\)$")
 _DO = re.compile(r"do (\w+) = (.+)$")
 _CALL = re.compile(r"call (\w+)\((.*)\)$")
 _ASSIGN = re.compile(r"(\w+)_data\(df\) = (.*)$")
@@ -225,7 +227,8 @@ def parse_psy(text):
             if guard or (stack and not (len(stack) == 1 and
                                         stack[0]["space"] == "colours")):
                 raise HarnessError(f"unexpected IF nesting at {raw!r}")
-            guard = (mat.group(1), mat.group(2).strip())
+            guard = (mat.group(1) + (mat.group(2) or ""),
+                     mat.group(3).strip())
             continue
         if re.match(r"end\s*if$", low):
             if not guard:
@@ -237,8 +240,8 @@ def parse_psy(text):
             if stack and not (len(stack) == 1 and
                               stack[0]["space"] == "colours"):
                 raise HarnessError("halo exchange inside a loop")
-            field, suffix, depth = mat.group(1), mat.group(2), \
-                mat.group(3).strip()
+            field, suffix, depth = mat.group(1) + (mat.group(2) or ""), \
+                mat.group(3), mat.group(4).strip()
             if guard and (guard[0] != field or guard[1] != depth):
                 raise HarnessError(f"guard {guard} does not match exchange "
                                    f"{raw!r}")
@@ -254,14 +257,16 @@ def parse_psy(text):
         if mat:
             if stack:
                 raise HarnessError("set_dirty inside a loop")
-            events.append({"ev": "dirty", "field": mat.group(1)})
+            events.append({"ev": "dirty",
+                           "field": mat.group(1) + (mat.group(2) or "")})
             continue
         mat = _CLEAN.match(low)
         if mat:
             if stack:
                 raise HarnessError("set_clean inside a loop")
-            events.append({"ev": "clean", "field": mat.group(1),
-                           "depth": mat.group(2).strip()})
+            events.append({"ev": "clean",
+                           "field": mat.group(1) + (mat.group(2) or ""),
+                           "depth": mat.group(3).strip()})
             continue
         mat = _DO.match(low)
         if mat:
@@ -357,7 +362,14 @@ def bind(events, spec):
             found = None
             for idx in free:
                 rec = recs[idx]
-                names = [f"f{a['f']}" for a in rec["args"]]
+                names = []
+                for arg in rec["args"]:
+                    size = G.vector_size(spec, arg["f"])
+                    if size > 1:
+                        names += [f"f{arg['f']}_{c}"
+                                  for c in range(1, size + 1)]
+                    else:
+                        names.append(f"f{arg['f']}")
                 if call["kind"] == "kern" and rec["kind"] == "kern":
                     if rec["name"] == call["name"]:
                         if names != call["fields"]:
@@ -461,37 +473,47 @@ def requirements(rec, space, level, cont):
     return res
 
 
-def effects(rec, space, level, cont, truth):
-    """{field: new truth} for the written arguments of one call; None value
-    = the access is outside the model (continuous increment in an
-    owned-cell loop)."""
-    res = {}
-    for arg in rec["args"]:
-        acc, fld = arg["acc"], arg["f"]
-        if acc == "gh_read":
-            continue
-        old = truth[fld]
-        rmw = acc != "gh_write"
-        if space == "dof":
-            if level < 0:
-                new = -1 if cont[fld] else 0
-            elif level == 0:
-                new = min(0, old) if rmw else 0
-            else:
-                new = min(level, old) if rmw else level
-        elif cont[fld]:
-            if acc == "gh_write":
-                new = level
-            elif level >= 1:
-                new = min(level - 1, old)
-            else:
-                new = None
+def effect_of(arg, space, level, is_cont, old):
+    """New truth value of one (component of a) field written through `arg`
+    (its truth was `old`); None = outside the model (continuous increment
+    in an owned-cell loop)."""
+    acc = arg["acc"]
+    rmw = acc != "gh_write"
+    if space == "dof":
+        if level < 0:
+            new = -1 if is_cont else 0
+        elif level == 0:
+            new = min(0, old) if rmw else 0
         else:
             new = min(level, old) if rmw else level
-        if new is not None and not cont[fld]:
-            new = max(new, 0)
-        res[fld] = new
-    return res
+    elif is_cont:
+        if acc == "gh_write":
+            new = level
+        elif level >= 1:
+            new = min(level - 1, old)
+        else:
+            return None
+    else:
+        new = min(level, old) if rmw else level
+    if not is_cont:
+        new = max(new, 0)
+    return new
+
+
+def state_slots(spec):
+    """State slots: one per field, one per component of a field vector.
+    Returns ([(field, component or 0)], {name in generated code: slot})."""
+    slots, names = [], {}
+    for fld in range(len(spec["fields"])):
+        size = G.vector_size(spec, fld)
+        if size > 1:
+            for comp in range(1, size + 1):
+                names[f"f{fld}({comp})"] = len(slots)
+                slots.append((fld, comp))
+        else:
+            names[f"f{fld}"] = len(slots)
+            slots.append((fld, 0))
+    return slots, names
 
 
 class DomainError(Exception):
@@ -542,46 +564,58 @@ def execute(events, recs, spec, mesh_depth, init):
     env = dict(spec.get("extents", {}))
     env["max_halo_depth_mesh"] = mesh_depth
     nfld = len(spec["fields"])
-    cont = [G.is_continuous_space(s) for s in spec["fields"]]
+    fcont = [G.is_continuous_space(s) for s in spec["fields"]]
     annexed_cfg = bool(spec["annexed"])
+    # one state slot per field / per component of a field vector
+    slots, slot_of = state_slots(spec)
+    nslot = len(slots)
+    cont = [fcont[f] for f, _ in slots]
     flags = list(init)
     truth = []
-    for fld in range(nfld):
-        if init[fld] == 0 and cont[fld] and not annexed_cfg:
+    for slot in range(nslot):
+        if init[slot] == 0 and cont[slot] and not annexed_cfg:
             truth.append(-1)
         else:
-            truth.append(init[fld])
+            truth.append(init[slot])
+
+    def label(slot):
+        fld, comp = slots[slot]
+        return f"f{fld}({comp})" if comp else f"f{fld}"
     inflight = {}      # field -> (depth, executed)
     pending = set()    # fields written since their flags were last checked
     in_region = 0
 
     def fidx(name):
-        mat = re.fullmatch(r"f(\d+)", name)
-        if not mat or int(mat.group(1)) >= nfld:
+        if name not in slot_of:
             raise HarnessError(f"unknown field {name!r} in generated code")
-        return int(mat.group(1))
+        return slot_of[name]
+
+    def fslots(fld):
+        return [i for i, (f, _) in enumerate(slots) if f == fld]
 
     def check_flags(where):
-        for fld in sorted(pending):
-            if flags[fld] > max(truth[fld], 0):
+        for slot in sorted(pending):
+            if flags[slot] > max(truth[slot], 0):
                 return ("b:flags", f"after the loop(s) before {where}: field "
-                        f"f{fld} is flagged clean to depth {flags[fld]} but "
-                        f"is only correct to depth {max(truth[fld], 0)}")
+                        f"{label(slot)} is flagged clean to depth "
+                        f"{flags[slot]} but is only correct to depth "
+                        f"{max(truth[slot], 0)}")
         pending.clear()
         return None
 
     for num, evt in enumerate(events):
         kind = evt["ev"]
         if kind in ("dirty", "clean"):
-            fld = fidx(evt["field"])
-            if fld in inflight:
-                return ("c:pairing", f"flags of f{fld} changed between "
-                        f"halo_exchange_start and _finish (event {num})")
+            slot = fidx(evt["field"])
+            if slot in inflight:
+                return ("c:pairing", f"flags of {label(slot)} changed "
+                        f"between halo_exchange_start and _finish "
+                        f"(event {num})")
             if kind == "dirty":
-                flags[fld] = 0
+                flags[slot] = 0
             else:
-                flags[fld] = max(flags[fld],
-                                 eval_depth(evt["depth"], env))
+                flags[slot] = max(flags[slot],
+                                  eval_depth(evt["depth"], env))
             continue
         if kind == "region":
             if evt["what"] == "begin":
@@ -596,7 +630,8 @@ def execute(events, recs, spec, mesh_depth, init):
             fail = check_flags("a halo exchange")
             if fail:
                 return fail
-            fld = fidx(evt["field"])
+            slot = fidx(evt["field"])
+            name = label(slot)
             dep = eval_depth(evt["depth"], env)
             if not 1 <= dep <= mesh_depth:
                 raise DomainError(f"exchange depth {dep}")
@@ -609,36 +644,37 @@ def execute(events, recs, spec, mesh_depth, init):
                 written = {a["f"] for c in nxt["calls"]
                            for a in recs[c["rec"]]["args"]
                            if a["acc"] != "gh_read"}
-                if not evt["guard"] and fld in written:
+                if not evt["guard"] and slots[slot][0] in written:
                     return ("c:exchange_in_colours_loop",
-                            f"unconditional halo exchange of f{fld} inside "
-                            f"the loop over colours that updates f{fld}: "
+                            f"unconditional halo exchange of {name} inside "
+                            f"the loop over colours that updates {name}: "
                             f"the partially updated field is exchanged "
                             f"between colours")
-            run = (not evt["guard"]) or dep > flags[fld]
+            run = (not evt["guard"]) or dep > flags[slot]
             if evt["mode"] == "sync":
-                if fld in inflight:
-                    return ("c:pairing", f"halo exchange of f{fld} while an "
+                if slot in inflight:
+                    return ("c:pairing", f"halo exchange of {name} while an "
                             f"asynchronous one is in flight")
                 if run:
-                    flags[fld] = max(flags[fld], dep)
-                    truth[fld] = max(truth[fld], dep)
+                    flags[slot] = max(flags[slot], dep)
+                    truth[slot] = max(truth[slot], dep)
             elif evt["mode"] == "start":
-                if fld in inflight:
-                    return ("c:pairing", f"second halo_exchange_start of f{fld}")
-                inflight[fld] = (dep, run)
+                if slot in inflight:
+                    return ("c:pairing",
+                            f"second halo_exchange_start of {name}")
+                inflight[slot] = (dep, run)
             else:
-                if fld not in inflight:
-                    return ("c:pairing", f"halo_exchange_finish of f{fld} without "
-                            f"start")
-                dep0, run0 = inflight.pop(fld)
+                if slot not in inflight:
+                    return ("c:pairing", f"halo_exchange_finish of {name} "
+                            f"without start")
+                dep0, run0 = inflight.pop(slot)
                 if dep0 != dep or run0 != run:
-                    return ("c:pairing", f"halo_exchange_finish of f{fld} "
+                    return ("c:pairing", f"halo_exchange_finish of {name} "
                             f"(depth {dep}, executed {run}) does not match "
                             f"its start (depth {dep0}, executed {run0})")
                 if run:
-                    flags[fld] = max(flags[fld], dep)
-                    truth[fld] = max(truth[fld], dep)
+                    flags[slot] = max(flags[slot], dep)
+                    truth[slot] = max(truth[slot], dep)
             continue
         # ---- loop ------------------------------------------------------
         if not in_region:
@@ -651,46 +687,59 @@ def execute(events, recs, spec, mesh_depth, init):
         for call in evt["calls"]:
             rec = recs[call["rec"]]
             for fld, need, key, why in requirements(rec, space, level,
-                                                    cont):
+                                                    fcont):
                 if need > mesh_depth:
                     raise DomainError(f"access to depth {need}")
-                if truth[fld] < need:
+                for slot in fslots(fld):
+                    if truth[slot] >= need:
+                        continue
                     have = ("dirty (annexed DoFs incorrect)"
-                            if truth[fld] < 0 else
+                            if truth[slot] < 0 else
                             "dirty (annexed DoFs correct)"
-                            if truth[fld] == 0 else
-                            f"correct to depth {truth[fld]}")
+                            if truth[slot] == 0 else
+                            f"correct to depth {truth[slot]}")
                     want = ("correct annexed DoFs" if need == 0 else
                             f"a halo correct to depth {need}")
                     return ("a:" + key,
-                            f"{rec['name']} needs {want} of f{fld} "
+                            f"{rec['name']} needs {want} of {label(slot)} "
                             f"({why}) but the halo is {have}")
             for arg in rec["args"]:
-                if arg["acc"] != "gh_read" and arg["f"] in inflight:
-                    return ("c:write_in_flight",
-                            f"{rec['name']} writes f{arg['f']} between "
-                            f"halo_exchange_start and _finish")
+                if arg["acc"] == "gh_read":
+                    continue
+                for slot in fslots(arg["f"]):
+                    if slot in inflight:
+                        return ("c:write_in_flight",
+                                f"{rec['name']} writes {label(slot)} between "
+                                f"halo_exchange_start and _finish")
         for call in evt["calls"]:
             rec = recs[call["rec"]]
-            for fld, new in effects(rec, space, level, cont, truth).items():
-                if new is None:
-                    return ("a:inc_owned",
-                            f"{rec['name']} increments the continuous "
-                            f"field f{fld} in a loop over owned cells only")
-                truth[fld] = new
-                pending.add(fld)
+            for arg in rec["args"]:
+                if arg["acc"] == "gh_read":
+                    continue
+                for slot in fslots(arg["f"]):
+                    new = effect_of(arg, space, level, cont[slot],
+                                    truth[slot])
+                    if new is None:
+                        return ("a:inc_owned",
+                                f"{rec['name']} increments the continuous "
+                                f"field {label(slot)} in a loop over owned "
+                                f"cells only")
+                    truth[slot] = new
+                    pending.add(slot)
     if inflight:
-        return ("c:pairing", f"halo_exchange_start of {sorted(inflight)} without "
-                f"finish")
-    pending.update(range(nfld))
+        return ("c:pairing", f"halo_exchange_start of "
+                f"{[label(s) for s in sorted(inflight)]} without finish")
+    pending.update(range(nslot))
     fail = check_flags("the end of the invoke")
     if fail:
         return fail
     if annexed_cfg:
-        for fld in range(nfld):
-            if cont[fld] and truth[fld] < 0:
-                return ("b:annexed_invariant", f"COMPUTE_ANNEXED_DOFS: annexed DoFs of f{fld} "
-                        f"are incorrect at the end of the invoke")
+        for slot in range(nslot):
+            if cont[slot] and truth[slot] < 0:
+                return ("b:annexed_invariant",
+                        f"COMPUTE_ANNEXED_DOFS: annexed DoFs of "
+                        f"{label(slot)} are incorrect at the end of the "
+                        f"invoke")
     return None
 
 
